@@ -26,6 +26,11 @@ struct Rng {
     template <class T> const T& pick(const std::vector<T>& v) { return v[next() % v.size()]; }
 };
 
+// VERIF_UNBUFFERED=1: every record reaches the pipe before the next library call runs, so that after a crash of the
+// harness the orchestrator can name the operation that was executing (tools/verif.py crash_probe)
+struct UnbufferedStdout { UnbufferedStdout() { if (getenv("VERIF_UNBUFFERED")) setvbuf(stdout, nullptr, _IONBF, 0); } };
+static UnbufferedStdout verif_unbuffered_stdout_;
+
 inline uint64_t seed_from_env() {
     const char* s = getenv("VERIF_SEED");
     return s ? strtoull(s, nullptr, 10) : 1ULL;
